@@ -8,6 +8,7 @@ on the wall clock (C02).  time.sleep must never be reached unless a test lets it
 import time as _time
 
 TICK = 1.0 / 64.0
+REAL_SLEEP = _time.sleep          # wall-clock sleep, for the few scripted operations that must outlive a real timeout
 
 
 class VClock:
